@@ -2,7 +2,10 @@ package main
 
 import (
 	"fmt"
+	"os"
+	"os/exec"
 	"runtime"
+	"runtime/debug"
 	"strings"
 	"sync"
 	"time"
@@ -310,6 +313,23 @@ func corrC11(out string, seed uint64, tier string, replay string) *report {
 		mu.Unlock()
 		rep.Distribution["concurrent_parses"] = workers * each
 	}
+	// a cheap but very long input (a million delimiters), parsed in a child process whose goroutine stacks are limited
+	// to 32 MB: the work per delimiter is constant, so stack use must not grow with the input
+	{
+		out, err := exec.Command(os.Args[0], "c11deep").CombinedOutput()
+		if err != nil || !strings.Contains(string(out), "c11deep-ok") {
+			msg := string(out)
+			if i := strings.Index(msg, "fatal error"); i >= 0 {
+				msg = msg[i:]
+			}
+			if len(msg) > 300 {
+				msg = msg[:300]
+			}
+			rep.fail(map[string]interface{}{"input": "\"$a\" + strings.Repeat(\"$b\", 500000) and strings.Repeat(\"x,\", 500000), stack limit 32 MB"}, "Parse returns a tree", fmt.Sprint(err, " ", msg),
+				"Parse does not return for a long input (stack use grows with the number of delimiters)")
+		}
+		rep.count("deep input", true)
+	}
 	// goroutine leak: the lexer goroutine must have exited after every call
 	leak := -1
 	for i := 0; i < 200; i++ {
@@ -333,4 +353,17 @@ func corrC11(out string, seed uint64, tier string, replay string) *report {
 	rep.Exhaustive = true
 	rep.Rule = "each string: VerifLex token stream and Parse result (tree with positions, or error offset/message) are compared with the Coq model; the property oracle (error iff bad identifier, render+tail = input, spans, grouping, no panic/hang, goroutine count) is evaluated on the implementation. Non-trivial = contains a delimiter or underscore; distinct by input."
 	return rep
+}
+
+// c11Deep is the body of the child process: long inputs under a lowered stack limit.
+func c11Deep() {
+	debug.SetMaxStack(32 << 20)
+	for _, in := range []string{"$a" + strings.Repeat("$b", 500000), strings.Repeat("x,", 500000), "_" + strings.Repeat("$", 300000)} {
+		t, err := parse.Parse(in)
+		if err != nil || t == nil {
+			fmt.Println("parse failed:", err)
+			os.Exit(1)
+		}
+	}
+	fmt.Println("c11deep-ok")
 }
